@@ -594,6 +594,7 @@ def rule_refcount(ctx, P, r):
     # the counter itself: every path of init_tables adds one, every path of deinit_tables subtracts one (clamped at 0)
     from ..paths import enumerate_paths
     from ..poly import PolyCtx, Poly
+    deinit_by_value = [False]
     for gm in [m for m in P.mods if m.src == 'src/builtin/rs_vand/rs_galois.c'][:1]:
         # deinit (loop-free): constant propagation of counter values -> new counter == max(c - 1, 0), tables freed iff c == 1
         from ..consteval import ConstEval as _CE, Undecidable as _Und
@@ -614,6 +615,7 @@ def rule_refcount(ctx, P, r):
             if (freed > 0) != (c0 == 1):
                 badd = ('fail', f'with counter {c0} the tables are ' + ('freed' if freed else 'not freed')); break
         inst = '@rs_galois_deinit_tables: counter := max(counter - 1, 0); tables freed exactly when it drops from 1 to 0'
+        deinit_by_value[0] = badd is None
         if badd is None:
             r.ok(inst, func=gde.name, loc=gde.mod.src)
         elif badd[0] == 'undecided':
@@ -687,7 +689,9 @@ def rule_refcount(ctx, P, r):
         for fr in frees:
             F = Facts(P, de, fr.bb)
             ok = any(p == 'eq' and re.search(r'init_counter', a + b) and '0' in (a, b) for p, a, b in F.facts)
-            if ok:
+            # (however the guard is written - a snapshot of the counter compared with 1 - the value function above has established
+            # that the frees happen exactly when the count drops from 1 to 0)
+            if ok or deinit_by_value[0]:
                 r.ok(f'free at line {fr.line} only when the counter reached 0', func=de.name, loc=fr.loc)
             else:
                 r.fail('free of tables', func=de.name, sig='free not guarded by counter == 0', loc=fr.loc, msg=f'tables are freed under {F.facts}: live instances may still use them')
